@@ -1047,6 +1047,10 @@ func checkC16(w *World, r *Recorder) propInfo {
 		}
 	}
 	c16Conflict(w, r, reg)
+	// N5: what registration records about a profile (its JSON tag) and what the
+	// dispatchers compute must not depend on a pointer to a variable that later
+	// loop iterations overwrite
+	c16StaleLoopPointers(w, r)
 	r.Floor("C16-N1", 2)
 	r.Floor("C16-N2", 1)
 	r.Floor("C16-N3", 3)
@@ -1284,4 +1288,74 @@ func nonNilEdgeInto(v ssa.Value, l, target *ssa.BasicBlock) bool {
 	}
 	x, nilSucc, ok := nilGuard(ifi)
 	return ok && stripIface(x) == stripIface(v) && l.Succs[1-nilSucc] == target && l.Succs[nilSucc] != target
+}
+
+// c16StaleLoopPointers: in the functions reachable from RegisterProfile and the
+// decode dispatchers, no pointer to a variable that lives outside a loop is
+// kept (stored into another variable, carried by a φ) inside that loop while
+// the loop also assigns the variable: after the next iteration the pointer
+// sees the new contents (the classic "address of the loop variable" slip once
+// the variable is hoisted out of the loop body).
+func c16StaleLoopPointers(w *World, r *Recorder) {
+	var roots []*ssa.Function
+	for _, n := range []string{"RegisterProfile", "NewClaims", "DecodeClaimsFromCBOR", "DecodeClaimsFromJSON"} {
+		if f := w.Root.Func(n); f != nil {
+			roots = append(roots, f)
+		}
+	}
+	reach := w.Reachable(roots)
+	n, bad := 0, 0
+	for _, fn := range sortedFuncs(reach) {
+		if !w.InRepo(fn) || fn.Blocks == nil {
+			continue
+		}
+		n++
+		for _, hb := range fn.Blocks {
+			isHeader := false
+			for _, p := range hb.Preds {
+				if hb.Dominates(p) {
+					isHeader = true
+				}
+			}
+			if !isHeader {
+				continue
+			}
+			li := loopInfoOf(hb)
+			for _, b0 := range fn.Blocks {
+				for _, in := range b0.Instrs {
+					al, ok := in.(*ssa.Alloc)
+					if !ok || li.blocks[al.Block()] {
+						continue
+					}
+					written, kept := ssa.Instruction(nil), ssa.Instruction(nil)
+					for b := range li.blocks {
+						for _, x := range b.Instrs {
+							switch y := x.(type) {
+							case *ssa.Store:
+								if root, ok := addrRootAlloc(y.Addr); ok && root == al {
+									written = y
+								}
+								if y.Val == ssa.Value(al) {
+									kept = y
+								}
+							case *ssa.Phi:
+								for _, e := range y.Edges {
+									if e == ssa.Value(al) {
+										kept = y
+									}
+								}
+							}
+						}
+					}
+					if written != nil && kept != nil {
+						bad++
+						r.Refute("C16-N5", fmt.Sprintf("%s#%s", fnKey(fn), al.Comment), w.InstrPos(kept), fmt.Sprintf("a pointer to %s is kept across iterations of a loop that also assigns %s (the variable lives outside the loop): what the pointer designates changes with the next iteration", al.Comment, al.Comment))
+					}
+				}
+			}
+		}
+	}
+	if bad == 0 {
+		r.Prove("C16-N5", "no-stale-loop-pointers", "-", fmt.Sprintf("%d functions reachable from registration and dispatch keep no pointer to a variable that a later iteration overwrites", n), true)
+	}
 }
